@@ -691,36 +691,61 @@ func c04AlertMap(p *core.Prog, r *core.Run, m *echModel) {
 			continue
 		}
 		level, _ := s.X.Args[1].ConstInt()
-		desc, okD := s.X.Args[2].ConstInt()
-		var pos, negs []string
-		errNonNil := false
-		for _, f := range p.Facts(s.Block()) {
-			if f.L.Op == "call" && f.L.Name == "errors.Is" && len(f.L.Args) == 2 && f.L.Args[0].Op == "param" && f.L.Args[1].Op == "global" {
-				if f.Op == "true" {
-					pos = append(pos, f.L.Args[1].Name)
-				} else {
-					negs = append(negs, f.L.Args[1].Name)
+		okConn := s.X.Args[0].Op == "param" && s.X.Args[0].Name == "p0"
+		// the description: a constant per call site, or one call site whose
+		// description was selected beforehand (a φ over constants): one case per
+		// way the value gets there, with the conditions of that way
+		type acase struct {
+			desc int64
+			okD  bool
+			fs   []core.Fact
+		}
+		var cases []acase
+		var expand func(v ssa.Value, fs []core.Fact, depth int)
+		expand = func(v ssa.Value, fs []core.Fact, depth int) {
+			if ph, ok := v.(*ssa.Phi); ok && depth < 4 {
+				for i, e := range ph.Edges {
+					expand(e, append(append([]core.Fact{}, fs...), p.EdgeFacts(ph.Block().Preds[i], ph.Block())...), depth+1)
+				}
+				return
+			}
+			d, okD := p.X(v).ConstInt()
+			cases = append(cases, acase{d, okD, fs})
+		}
+		expand(s.Instr.Common().Args[2], p.Facts(s.Block()), 0)
+		for _, c := range cases {
+			desc, okD := c.desc, c.okD
+			var pos, negs []string
+			errNonNil := false
+			for _, f := range c.fs {
+				if f.L.Op == "call" && f.L.Name == "errors.Is" && len(f.L.Args) == 2 && f.L.Args[0].Op == "param" && f.L.Args[1].Op == "global" {
+					if f.Op == "true" {
+						pos = append(pos, f.L.Args[1].Name)
+					} else {
+						negs = append(negs, f.L.Args[1].Name)
+					}
+				}
+				if f.Op == "!=" && f.L.Op == "param" && f.R.Name == "nil" {
+					errNonNil = true
 				}
 			}
-			if f.Op == "!=" && f.L.Op == "param" && f.R.Name == "nil" {
-				errNonNil = true
+			negs = uniqStrings(negs)
+			pos = uniqStrings(pos)
+			switch {
+			case len(pos) == 1:
+				want, known := alertTable[pos[0]]
+				seen[pos[0]] = true
+				got[pos[0]] = desc
+				r.Check("C04.ALERT.map", "map:"+pos[0], known && okD && desc == want && level == 2 && okConn && errNonNil, p.InstrPos(s.Instr), "%s -> alert %d at level %d (RFC 8446: %d, fatal=2)", pos[0], desc, level, want)
+			case len(pos) == 0:
+				deflt = true
+				sort.Strings(negs)
+				all := len(negs) == len(alertTable)
+				got["default"] = desc
+				r.Check("C04.ALERT.map", "map:default", okD && desc == 40 && level == 2 && all && errNonNil, p.InstrPos(s.Instr), "any other non-nil error -> alert %d (handshake_failure = 40) at level %d, after all %d sentinels were tested (%d)", desc, level, len(alertTable), len(negs))
+			default:
+				r.Check("C04.ALERT.map", "map:ambiguous", false, p.InstrPos(s.Instr), "alert sent under several sentinels at once: %v", pos)
 			}
-		}
-		okConn := s.X.Args[0].Op == "param" && s.X.Args[0].Name == "p0"
-		switch {
-		case len(pos) == 1:
-			want, known := alertTable[pos[0]]
-			seen[pos[0]] = true
-			got[pos[0]] = desc
-			r.Check("C04.ALERT.map", "map:"+pos[0], known && okD && desc == want && level == 2 && okConn && errNonNil, p.InstrPos(s.Instr), "%s -> alert %d at level %d (RFC 8446: %d, fatal=2)", pos[0], desc, level, want)
-		case len(pos) == 0:
-			deflt = true
-			sort.Strings(negs)
-			all := len(negs) == len(alertTable)
-			got["default"] = desc
-			r.Check("C04.ALERT.map", "map:default", okD && desc == 40 && level == 2 && all && errNonNil, p.InstrPos(s.Instr), "any other non-nil error -> alert %d (handshake_failure = 40) at level %d, after all %d sentinels were tested (%d)", desc, level, len(alertTable), len(negs))
-		default:
-			r.Check("C04.ALERT.map", "map:ambiguous", false, p.InstrPos(s.Instr), "alert sent under several sentinels at once: %v", pos)
 		}
 	}
 	r.Tables["alert_map"] = got
@@ -847,3 +872,15 @@ func c04AlertDeliver(p *core.Prog, r *core.Run, m *echModel, rule string) {
 }
 
 func regexpQuote(s string) string { return core.Q(s) }
+
+func uniqStrings(in []string) []string {
+	seen := map[string]bool{}
+	var out []string
+	for _, x := range in {
+		if !seen[x] {
+			seen[x] = true
+			out = append(out, x)
+		}
+	}
+	return out
+}
